@@ -11,17 +11,18 @@ package main
 //@ type proxy
 //@   guarded requests by Mutex
 //@   guarded randGenerator by Mutex
+//@   invariant[C01,C07:pending-entries-complete] forall_str(k, in(k, self.requests) ==> self.requests[k] != nil && self.requests[k].req != nil && self.requests[k].respChan != nil && !closed(self.requests[k].respChan))
 
 //@ func isHopByHopHeader props(C02,C03)
 //@   assigns nothing
 //@   ensures[C02:hop-spec] r0 <==> hop(name)
 
-//@ func (*proxy).handleAgentRequest props(C01)
+//@ func (*proxy).handleAgentRequest props(C07)
 //@   assigns heap
 
 //@ func (*proxy).newID props(C01,C07)
-//@   requires p != nil && p.randGenerator != nil
-//@   assigns nothing
+//@   requires p != nil && p.randGenerator != nil && !held(p.Mutex)
+//@   assigns mapof(p.requests)
 
 // ServeHTTP, client side. The request is handed to the pending table with only its hop-by-hop header fields
 // removed (C02); it is stored and enqueued under one and the same fresh id, once (C01, C04); the response
@@ -52,3 +53,38 @@ package main
 //@     assert[C03:status] arg1 == resp.StatusCode
 //@   call io.Copy
 //@     assert[C01:own-body] arg0 == w && arg1 == resp.Body && resp == got
+
+// Agent side of the rendezvous (C01): a fetch serialises, and an upload is parsed against and delivered to,
+// exactly the pending entry stored under the request id the agent named; an upload is handed over at most once.
+//@ func (*proxy).handleAgentPostResponse props(C01,C07)
+//@   requires p != nil && w != nil && r != nil && p.requests != nil && !held(p.Mutex)
+//@   ghost sends int = 0
+//@   ghost parsed ref = nil
+//@   call http.ReadResponse
+//@     assert[C01:parse-against-own-request] pending != nil && pending == p.requests[requestID] && arg1 == pending.req
+//@     do parsed = ret0
+//@   send respChan
+//@     assert[C01:deliver-to-looked-up-waiter] pending == p.requests[requestID] && arg0 == pending.respChan
+//@     assert[C01:deliver-parsed-response] arg1 == parsed && arg1 == resp
+//@     assert[C01:one-delivery-per-upload] sends == 0
+//@     do sends = sends + 1
+
+//@ func (*proxy).handleAgentGetRequest props(C01,C02,C07)
+//@   requires p != nil && w != nil && r != nil && p.requests != nil && !held(p.Mutex)
+//@   assigns mapof(p.requests), mapof(rwHeaderOf(w)), ghost rwStatus[w], ghost rwWrites[w]
+//@   call (*http.Request).Write
+//@     assert[C01:serve-own-request] pending != nil && pending == p.requests[requestID] && arg0 == pending.req && arg1 == w
+
+// Hand-off of request ids to pollers (C04): the reply holds exactly the ids received from the channel, in order.
+//@ func (*proxy).waitForRequestIDs props(C04,C07)
+//@   requires p != nil && p.requestIDs != nil
+//@   assigns nothing
+//@   ghost n int = 0
+//@   ghost seq map[int]string
+//@   recv requestIDs
+//@     assert[C04:only-id-channel] arg0 == p.requestIDs
+//@     do seq[n] = ret0
+//@     do n = n + 1
+//@   ensures[C04:reply-is-what-was-received] len(r0) == n && forall(i, 0, n, r0[i] == seq[i])
+//@   loop 1
+//@     invariant[C04:collected] len(requestIDs) == n && n >= 1 && forall(i, 0, n, requestIDs[i] == seq[i])
